@@ -398,6 +398,64 @@ func GenHistory(r *hx.Rand, tier string, funded bool) string {
 	}
 	admin := func() uint64 { return witness(AdminID) }
 	posVals := []uint64{500, 500, 1000, 1000, 1500, 2500, 5000, 10000, 20000, 250, 0, 700}
+	if era >= 3000000 && r.Chance(45) {
+		// scenario: ten active nodes for K = 7 consensus seats. One new node with a large stake pushes a genesis node out,
+		// two new nodes with the minimum stake stay candidates; authorizers stake on candidate AND consensus nodes in two
+		// consecutive epochs, unauthorize around NewPos / NewPos+settled, and withdraw at the bound after every epoch change.
+		hi := newNodes[r.Intn(3)]
+		for _, p := range newNodes {
+			a := owners[p]
+			st := uint64(10000)
+			if p == hi {
+				st = 30000
+			}
+			emit(fmt.Sprintf("reg:%d:%d:%d:%d", a, p, a, st))
+			if era < 8600000 {
+				emit(fmt.Sprintf("appr:%d:%d", AdminID, p))
+			}
+			emit(fmt.Sprintf("maxauth:%d:%d:%d:%d", a, p, a, 200000))
+		}
+		for _, g := range GenesisPeers {
+			if r.Chance(50) {
+				emit(fmt.Sprintf("maxauth:%d:%d:%d:%d", g[1], g[0], g[1], 200000))
+			}
+		}
+		targets := []uint64{3, 6, 9, uint64(1 + r.Intn(NPeers))}
+		stakers := []uint64{9, 10, 11}
+		for epoch := 0; epoch < 2+r.Intn(3); epoch++ {
+			for _, u := range stakers {
+				if r.Chance(75) {
+					emit(fmt.Sprintf("auth:%d:%d:%d,%d", u, u, targets[r.Intn(len(targets))], pick(r, 500, 500, 1000, 1500)))
+				}
+			}
+			if epoch > 0 {
+				s := w.Snapshot()
+				for _, x := range s.Auths {
+					if x.New > 0 && x.Cons+x.Cand > 0 && r.Chance(60) {
+						settled := x.Cons + x.Cand
+						emit(fmt.Sprintf("unauth:%d:%d:%d,%d", x.Addr, x.Addr, x.Peer,
+							pick(r, x.New+500, x.New+settled, x.New+500, x.New, x.New+settled+500, x.New+1)))
+					}
+				}
+			}
+			h++
+			emit(fmt.Sprintf("ht:%d", h))
+			if r.Chance(40) {
+				emit(fmt.Sprintf("fee:%d", pick(r, 1000000000, 5000000000000)))
+			}
+			emit(fmt.Sprintf("commit:%d", AdminID))
+			s := w.Snapshot()
+			for _, x := range s.Auths {
+				if x.Unf > 0 && r.Chance(60) {
+					emit(fmt.Sprintf("wd:%d:%d:%d,%d", x.Addr, x.Addr, x.Peer, x.Unf+1))
+					if r.Chance(70) {
+						emit(fmt.Sprintf("wd:%d:%d:%d,%d", x.Addr, x.Addr, x.Peer, x.Unf))
+					}
+				}
+			}
+		}
+		n += 30
+	}
 	for len(ops) < n {
 		s := w.Snapshot()
 		switch c := r.Intn(100); {
@@ -452,8 +510,13 @@ func GenHistory(r *hx.Rand, tier string, funded bool) string {
 		case c < 44: // unauthorize, aimed at an existing record
 			if len(s.Auths) > 0 && r.Chance(85) {
 				x := s.Auths[r.Intn(len(s.Auths))]
+				// prefer records that hold both a settled and a new position (staked in consecutive epochs)
+				for try := 0; try < 4 && !(x.New > 0 && x.Cons+x.Cand > 0); try++ {
+					x = s.Auths[r.Intn(len(s.Auths))]
+				}
 				act := x.Cons + x.Cand + x.New
-				amt := pick(r, 500, 1000, act, x.New, act+500, 250)
+				amt := pick(r, 500, 1000, act, x.New, x.New+500, x.New+x.Cand, x.New+x.Cons, x.New+1, x.New+x.Cand+1, x.New+x.Cons+1,
+					x.New+x.Cand-1, act+500, 250)
 				emit(fmt.Sprintf("unauth:%d:%d:%d,%d", witness(x.Addr), x.Addr, x.Peer, amt))
 			} else {
 				emit(fmt.Sprintf("unauth:%d:%d:%d,%d", 9, 9, anyPeer(), pick(r, 500, 1000, 0)))
@@ -479,6 +542,15 @@ func GenHistory(r *hx.Rand, tier string, funded bool) string {
 				emit(fmt.Sprintf("fee:%d", pick(r, 1000000000, 123456789012, 5000000000000, 77, 1000000000000000, 600000000000000000)))
 			}
 			emit(fmt.Sprintf("commit:%d", pick(r, AdminID, AdminID, AdminID, AdminID, 9)))
+			if r.Chance(50) {
+				s2 := w.Snapshot()
+				for _, x := range s2.Auths {
+					if x.Unf > 0 && r.Chance(50) {
+						emit(fmt.Sprintf("wd:%d:%d:%d,%d", x.Addr, x.Addr, x.Peer, x.Unf+1))
+						emit(fmt.Sprintf("wd:%d:%d:%d,%d", x.Addr, x.Addr, x.Peer, x.Unf))
+					}
+				}
+			}
 		case c < 76: // quit
 			if len(s.Pool) > 0 {
 				q := s.Pool[r.Intn(len(s.Pool))]
